@@ -603,20 +603,20 @@ Proof. induction fs as [|f fs IH]; intros c; cbn; [reflexivity | apply IH]. Qed.
 
 (* what a load with any context does, given the failures of the recording load *)
 Lemma load_fty_by_replay {C} (sink : C -> str -> str -> outcome C) a pl t d v ld fs :
-  load_fty a pl rec_sink t [] (fdefault t) d [] = Ok (v, ld, fs) ->
-  forall c, load_fty a pl sink t [] (fdefault t) d c = (c' <- replay sink c fs ;; Ok (v, ld, c')).
+  load_fty a pl rec_sink t (root_path a d) (fdefault t) d [] = Ok (v, ld, fs) ->
+  forall c, load_fty a pl sink t (root_path a d) (fdefault t) d c = (c' <- replay sink c fs ;; Ok (v, ld, c')).
 Proof.
-  intros H. destruct (proj1 (loader_sim a pl sink) t [] (fdefault t) d [] (v, ld) fs H) as [adds [E G]].
+  intros H. destruct (proj1 (loader_sim a pl sink) t (root_path a d) (fdefault t) d [] (v, ld) fs H) as [adds [E G]].
   cbn in E. subst adds. exact G.
 Qed.
 
 Lemma load_recording_inv a pl t d v fs :
   load_recording a pl t d = Ok (v, fs) ->
-  exists ld, load_fty a pl rec_sink t [] (fdefault t) d [] = Ok (v, ld, fs).
+  exists ld, load_fty a pl rec_sink t (root_path a d) (fdefault t) d [] = Ok (v, ld, fs).
 Proof.
   change (load_recording a pl t d)
-    with ('(v0, _, l) <- load_fty a pl rec_sink t [] (fdefault t) d [] ;; Ok (v0, l)).
-  destruct (load_fty a pl rec_sink t [] (fdefault t) d []) as [[[v0 ld] l]|e]; cbn; intros H; [|discriminate].
+    with ('(v0, _, l) <- load_fty a pl rec_sink t (root_path a d) (fdefault t) d [] ;; Ok (v0, l)).
+  destruct (load_fty a pl rec_sink t (root_path a d) (fdefault t) d []) as [[[v0 ld] l]|e]; cbn; intros H; [|discriminate].
   inversion H; subst. exists ld. reflexivity.
 Qed.
 
@@ -922,7 +922,7 @@ Definition ex_class : fty :=
   FObj (FCons [97]%N (FLeaf LInt) [VRange 1 5 (Some [49]%N); VRange 3 9 (Some [50]%N)]
        (FCons [98]%N (FLeaf LInt) [VRequired (Some [51]%N)] FNil)).
 Definition ex_doc : doc := DMap [(DKStr [97]%N, DInt 0)].
-Definition ex_arch : arch := mkArch true NullStrMismatch 1.
+Definition ex_arch : arch := mkArch true NullStrMismatch 1 None.
 Definition ex_pols : pols := mkPols PThrow PThrow.
 Definition ex_failures : list failure := [([47; 97]%N, [49]%N); ([47; 97]%N, [50]%N); ([47; 98]%N, [51]%N)].
 
